@@ -327,7 +327,7 @@ func vlConcurrent(t *testing.T, tr *vTrace, store *BadgerStore, n int, seed int6
 		// sequential prefix: some transactions get their locks, bodies and finalization
 		for _, name := range vlConcTx {
 			r := rng.Intn(10)
-			if r >= 5 {
+			if r >= 5 || (h%2 == 1 && r >= 1) {
 				continue
 			}
 			steps := []string{"LockIn"}
@@ -351,6 +351,14 @@ func vlConcurrent(t *testing.T, tr *vTrace, store *BadgerStore, n int, seed int6
 			}
 		}
 		G := 2 + rng.Intn(3)
+		// every other history is a contention history: all goroutines make ordinary (and a few
+		// finalization-path) reservations of transactions competing for the SAME slot at once
+		contend := h%2 == 1
+		families := [][]string{{"D1", "D2"}, {"M1", "M2"}, {"T1", "T2"}, {"T2", "T3", "T4"}, {"D1", "D2", "M1", "M2"}}
+		fam := families[rng.Intn(len(families))]
+		if contend {
+			G = 3 + rng.Intn(4)
+		}
 		var wg sync.WaitGroup
 		start := make(chan struct{})
 		for p := 1; p <= G; p++ {
@@ -362,7 +370,15 @@ func vlConcurrent(t *testing.T, tr *vTrace, store *BadgerStore, n int, seed int6
 				if rng.Intn(4) == 0 {
 					op = "LockGhost"
 				}
-				ops[c] = vlOp{Op: op, T: vlConcTx[rng.Intn(len(vlConcTx))], Fork: &f}
+				t := vlConcTx[rng.Intn(len(vlConcTx))]
+				if contend {
+					op, t = "LockIn", fam[rng.Intn(len(fam))]
+					f = rng.Intn(5) == 0
+					if rng.Intn(6) == 0 {
+						op = "LockGhost"
+					}
+				}
+				ops[c] = vlOp{Op: op, T: t, Fork: &f}
 			}
 			wg.Add(1)
 			go func(p int, ops []vlOp) {
